@@ -8,6 +8,7 @@
 package verifspec
 
 import (
+	"math"
 	"reflect"
 	"unicode/utf8"
 )
@@ -94,4 +95,10 @@ func OnBoundary(s string, p int) bool {
 		q += w
 	}
 	return q == p
+}
+
+// SameFloat reports whether a and b are the same float64 value (bit pattern;
+// unlike ==, a NaN is the same as itself).
+func SameFloat(a, b float64) bool {
+	return math.Float64bits(a) == math.Float64bits(b)
 }
